@@ -12,7 +12,7 @@ from typing import Any, Dict, List, Optional, Tuple
 
 from engine.absint import AbsBool, AbsObj, BoundRepoMethods, ClassRef, ModuleEnv, Opaque, Oracle, explore
 from engine.index import AnalysisError, FuncInfo
-from engine.pyinterp import Function, Interp, InterpRaised, Stub, Unsupported
+from engine.pyinterp import Function, Interp, InterpRaised, Record, Stub, Unsupported
 
 NAN = "NaN"
 
@@ -576,6 +576,8 @@ def initialize_outcomes(chk, cls_info, fi: FuncInfo) -> List[Dict[str, Any]]:
                 r = Function(fi.node, env, it)(model, frame)
             except InterpRaised as e:
                 return {"raises": e.exc_name}
+            if isinstance(r, Record) and r._cls.is_tuple:
+                r = tuple(r._values())   # a named pair is still the pair
             if not (isinstance(r, tuple) and len(r) == 2 and all(isinstance(x, DFrame) for x in r)):
                 return {"returns": repr(r)[:80]}
             k, d = r
